@@ -249,6 +249,7 @@ namespace ratio
         reason.emplace(&atm, af);
 
         // we check if we need to notify the new atom to any smart types..
+        bool smart = false; // whether some smart type takes care of the new atom..
         if (&atm.get_type().get_scope() != this)
         {
             std::queue<type *> q;
@@ -256,11 +257,24 @@ namespace ratio
             while (!q.empty())
             {
                 if (smart_type *st = dynamic_cast<smart_type *>(q.front()))
+                {
                     st->new_atom(*af);
+                    smart = true;
+                }
                 for (const auto &st : q.front()->get_supertypes())
                     q.push(st);
                 q.pop();
             }
+        }
+
+        if (is_fact && !smart && (is_interval(atm) || is_impulse(atm)))
+        { // the rule of a fact is not applied: as the smart types do for their facts, we apply the interval/impulse rule whenever the fact becomes active..
+            set_ni(lit(atm.get_sigma()));
+            if (is_interval(atm))
+                get_interval().apply_rule(atm);
+            else
+                get_impulse().apply_rule(atm);
+            restore_ni();
         }
     }
 
